@@ -603,6 +603,19 @@ func (e *env) tr(x Expr) (Val, XT, error) {
 		if x.Forall {
 			q = "forall"
 		}
+		if len(x.Patterns) > 0 {
+			var ps []string
+			for _, pe := range x.Patterns {
+				pv, _, err := n.tr(pe)
+				if err != nil {
+					return nil, XT{}, err
+				}
+				if s, ok := pv.(string); ok {
+					ps = append(ps, s)
+				}
+			}
+			body = "(! " + body + " :pattern (" + strings.Join(ps, " ") + "))"
+		}
 		return "(" + q + " (" + strings.Join(binds, " ") + ") " + body + ")", xtBool, nil
 	case *EBin:
 		return e.trBin(x)
@@ -814,6 +827,16 @@ func (e *env) trCall(x *ECall) (Val, XT, error) {
 			return and(app(">=", app("sbase", v), lo), app("<", app("sbase", v), hi)), xtBool, nil
 		}
 		return and(app("(_ is obj)", v), app(">=", app("oid", v), lo), app("<", app("oid", v), hi)), xtBool, nil
+	case "allocatedBefore":
+		v, xt, err := argv(0)
+		if err != nil {
+			return nil, XT{}, err
+		}
+		lo := g.svGet(e.old, "$nxt", "Int")
+		if xt.S == "Slice" {
+			return app("<", app("sbase", v), lo), xtBool, nil
+		}
+		return app("<", app("rootid", v), lo), xtBool, nil
 	case "allocated":
 		v, xt, err := argv(0)
 		if err != nil {
